@@ -35,6 +35,11 @@ func calleeKey(c *ssa.CallCommon) string {
 		}
 		return funcKey(f)
 	}
+	if c.IsInvoke() {
+		if f := devirt[c.Method]; f != nil {
+			return funcKey(f)
+		}
+	}
 	return ""
 }
 
@@ -88,13 +93,15 @@ func fieldName(v ssa.Value) string {
 		if st == nil {
 			return ""
 		}
-		return typeName(derefType(f.X.Type())) + "." + st.Field(f.Field).Name()
+		tn := typeName(derefType(f.X.Type()))
+		return tn + "." + aliasedField(tn, st.Field(f.Field).Name())
 	case *ssa.Field:
 		st, _ := f.X.Type().Underlying().(*types.Struct)
 		if st == nil {
 			return ""
 		}
-		return typeName(f.X.Type()) + "." + st.Field(f.Field).Name()
+		tn := typeName(f.X.Type())
+		return tn + "." + aliasedField(tn, st.Field(f.Field).Name())
 	}
 	return ""
 }
@@ -415,6 +422,91 @@ func edgeCond(b *ssa.BasicBlock, k int) *Cond {
 	return c
 }
 
+// condOfValue builds the condition "v is pos" for a boolean value (negations folded, comparisons opened up).
+func condOfValue(v ssa.Value, pos bool) *Cond {
+	for {
+		if u, ok := v.(*ssa.UnOp); ok && u.Op == token.NOT {
+			v = u.X
+			pos = !pos
+			continue
+		}
+		break
+	}
+	c := &Cond{V: v, Pos: pos}
+	if bo, ok := v.(*ssa.BinOp); ok {
+		switch bo.Op {
+		case token.EQL, token.NEQ, token.LSS, token.LEQ, token.GTR, token.GEQ:
+			c.Op, c.X, c.Y = bo.Op, bo.X, bo.Y
+		}
+	}
+	return c
+}
+
+// returnsOnlyUnder: the predicate function g returns `want` only where pred holds: a constant `want` is returned
+// only behind an edge satisfying pred, and a computed result, when it equals `want`, is itself a condition
+// satisfying pred (short-circuit && / || chains are phis of both kinds).
+func returnsOnlyUnder(g *ssa.Function, want bool, pred func(c *Cond) bool) bool {
+	if g == nil || g.Blocks == nil || g.Signature.Results().Len() != 1 || !isBoolType(g.Signature.Results().At(0).Type()) {
+		return false
+	}
+	var okVal func(v ssa.Value, at ssa.Instruction, viaBlock *ssa.BasicBlock, viaEdge int, d int) bool
+	okVal = func(v ssa.Value, at ssa.Instruction, viaBlock *ssa.BasicBlock, viaEdge int, d int) bool {
+		if d > 6 {
+			return false
+		}
+		v = strip(v)
+		if bv, isc := constBool(v); isc {
+			if bv != want {
+				return true
+			}
+			// the constant is produced on this path: the path must lie behind pred
+			if viaBlock != nil {
+				if c := edgeCond(viaBlock, viaEdge); c != nil && pred(c) {
+					return true
+				}
+				if len(viaBlock.Instrs) > 0 && controlledBy(g, viaBlock.Instrs[0], pred) {
+					return true
+				}
+				return false
+			}
+			return controlledBy(g, at, pred)
+		}
+		if ph, ok := v.(*ssa.Phi); ok {
+			for i, e := range ph.Edges {
+				pb := ph.Block().Preds[i]
+				k := 0
+				for j, s := range pb.Succs {
+					if s == ph.Block() {
+						k = j
+					}
+				}
+				if !okVal(e, at, pb, k, d+1) {
+					return false
+				}
+			}
+			return true
+		}
+		// a computed boolean: when it equals want, it must itself be an accepted condition - or sit behind one
+		if pred(condOfValue(v, want)) {
+			return true
+		}
+		if in, ok := v.(ssa.Instruction); ok && controlledBy(g, in, pred) {
+			return true
+		}
+		return false
+	}
+	rets := returnsOf(g)
+	if len(rets) == 0 {
+		return false
+	}
+	for _, ret := range rets {
+		if !okVal(retOperand(ret, 0), ret, nil, 0, 0) {
+			return false
+		}
+	}
+	return true
+}
+
 // holdsEq reports whether on this edge "X == Y" holds (true) or "X != Y" holds (false); ok=false if not an (in)equality.
 func (c *Cond) holdsEq() (eq bool, ok bool) {
 	switch c.Op {
@@ -482,6 +574,9 @@ func valString(v ssa.Value) string {
 }
 
 func callString(c *ssa.CallCommon) string {
+	if c.IsInvoke() && devirt[c.Method] != nil {
+		return funcKey(devirt[c.Method]) + "()"
+	}
 	if c.IsInvoke() {
 		return typeName(c.Value.Type()) + "." + c.Method.Name() + "()"
 	}
